@@ -93,9 +93,22 @@ async fn run_case(case: Vec<String>) -> String {
                 } else {
                     format!("SIP/2.0 {} X", p[2])
                 };
+                // optional field 9: a lower Via (the message travelled through a proxy), "<sent-by>!<branch>"; the key is made from the top one
+                let lower = match p.get(9) {
+                    Some(l) if !l.is_empty() => {
+                        let (sb2, b2) = l.split_once('!').unwrap_or((l, "-"));
+                        let b2 = if let Some(idx) = b2.strip_prefix('@') {
+                            client_branch.get(idx).cloned().unwrap_or_else(|| "z9hG4bKunknown".into())
+                        } else {
+                            b2.to_string()
+                        };
+                        format!("\r\nVia: SIP/2.0/UDP {}{}", sb2.replace('~', ":"), if b2 == "-" { String::new() } else { format!(";branch={}", b2) })
+                    }
+                    _ => String::new(),
+                };
                 let text = format!(
-                    "{line}\r\nVia: SIP/2.0/UDP {sb}{bp}\r\nFrom: <sip:peer@example.org>{ft}\r\nTo: <sip:me@example.org>;tag=tt\r\nCall-ID: {cid}\r\nCSeq: {cs} {cm}\r\nMax-Forwards: 70\r\nContent-Length: 0\r\n\r\n",
-                    line = line, sb = p[8].replace('~', ":"), bp = branch_param, ft = ft, cid = p[6], cs = p[4], cm = p[3]
+                    "{line}\r\nVia: SIP/2.0/UDP {sb}{bp}{lower}\r\nFrom: <sip:peer@example.org>{ft}\r\nTo: <sip:me@example.org>;tag=tt\r\nCall-ID: {cid}\r\nCSeq: {cs} {cm}\r\nMax-Forwards: 70\r\nContent-Length: 0\r\n\r\n",
+                    line = line, sb = p[8].replace('~', ":"), bp = branch_param, lower = lower, ft = ft, cid = p[6], cs = p[4], cm = p[3]
                 );
                 let nheld = held.lock().len();
                 clog.lock().clear();
